@@ -123,6 +123,13 @@ func scnC13Ingest(state string) scenarioFn {
 		pipe := rc.Sim.AddPipe(path)
 		ctx, cancel := context.WithCancel(context.Background())
 		rc.Cleanup(cancel)
+		if t.Choose(3, "ctx.deadline") == 2 {
+			// the context also carries a deadline far in the future (a parent with a time-out)
+			var cancel2 context.CancelFunc
+			ctx, cancel2 = context.WithTimeout(ctx, time.Hour)
+			rc.Cleanup(cancel2)
+			rc.Sim.Count("c13.ctx_with_deadline")
+		}
 		npi := namedpipe.NewNamedPipeIngester(nopLogger, health.NewHealth())
 		calls := &counterBox{}
 		res := &doneFlag{}
